@@ -108,7 +108,9 @@ Definition calc_relative (cur_file tgt : modpath) (tdir : bool) : option imp :=
   if negb tdir && modpath_eqb cur_file tgt then None
   else
     let cur_dir := removelast cur_file in
-    let L := common_prefix_len cur_dir tgt in
+    (* a target that is a module is the FILE <tgt>.py: its last component can never coincide with a directory
+       on the way to the current file, only its parent directories can *)
+    let L := common_prefix_len cur_dir (if tdir then tgt else removelast tgt) in
     Some (mkImp (S (length cur_dir - L)) (skipn L tgt)).
 
 (* context/import_collector.py make_relative_import(current_module_dot_path, target_module_dot_path):
